@@ -44,7 +44,23 @@ def wf_wait_retry() -> Any:
         make_step("flaky", [B], [None], flaky, retry_policy=retry_policy(wait=wait_fixed(1), stop=stop_after_attempt(3)))])
 
 
+def wf_spin(n: int = 6) -> Any:
+    """after a first (suspending) step, n steps that complete back to back without ever suspending"""
+    from vmc.events import A
+    from workflows.events import StartEvent
+
+    async def first(self, ctx, ev, inv):  # noqa: ANN001
+        await gate("first")
+        return A(uid=0)
+
+    async def spin(self, ctx, ev, inv):  # noqa: ANN001
+        return A(uid=ev.uid + 1) if ev.uid < n else StopEvent(result="spun")
+
+    return make_workflow("Spin", [make_step("first", [StartEvent], [A], first), make_step("spin", [A], [A, StopEvent], spin)])
+
+
 FAMILIES = {
+    "spin": (wf_spin, "spun"),
     "chain2": (lambda: wf_chain(2), "chain2"),
     "chain3": (lambda: wf_chain(3), "chain3"),
     "fan(2,2)": (lambda: wf_fan(2, 2), [0, 1]),
@@ -94,7 +110,19 @@ def execute(ex: Execution, family: str, mode: str) -> tuple[Any, list[Any]]:
 
         h.on_tick.append(on_tick)
         if mode in ("cancel", "cancel_resume", "cancel_resume_x2", "cancel_resume_timeout_hang"):
-            e.add_script([Action("cancel_run", lambda: hd.ctx._workflow_cancel_run())])
+            e.add_script([Action("cancel_run", lambda: (marks.setdefault("cancel_requested_at_bodies", len(h.invocations)), hd.ctx._workflow_cancel_run()))])
+        if mode == "cancel" and family == "spin":
+            # the cancel request and the completion of the running step in the same loop iteration: the request is in the run's
+            # mailbox while the non-suspending steps that follow are still to come
+            def cancel_and_release() -> None:
+                if "cancel_requested_at_bodies" in marks:
+                    return
+                marks["cancel_requested_at_bodies"] = len(h.invocations)
+                hd.ctx._workflow_cancel_run()
+                for g in h.pending_gates():
+                    g.fut.set_result(None)
+
+            e.add_script([Action("cancel_run + the running step completes (same loop iteration)", cancel_and_release)])
         e.cfg.stop_when = lambda hh: hd.is_done() and hh.stream_done
         e.drive()
         out = task_outcome(hd._result_task)
@@ -192,6 +220,13 @@ def execute(ex: Execution, family: str, mode: str) -> tuple[Any, list[Any]]:
                               {**w, "pending_delayed_retry_at_cancel": pending_retry},
                               f"resumed run ended {out2} (stuck={e.stuck}), expected result {expected_result!r}"))
         elif out[0] == "result":
+            if family == "spin" and mode == "cancel" and "cancel_requested_at_bodies" in marks \
+                    and len(h.invocations) - marks["cancel_requested_at_bodies"] > 3:
+                # the request was in the mailbox while more than three further steps were started one after the other: each
+                # time the loop chose what to handle next, the request was ready and passed over
+                v.append(("cancel_request_starved_until_the_run_finished", w,
+                          f"cancel_run was requested after {marks['cancel_requested_at_bodies']} step entries; {len(h.invocations) - marks['cancel_requested_at_bodies']} "
+                          f"more steps were entered and the run returned {out[1]!r}"))
             if mode in ("timeout", "timeout_hang", "timeout_busy") and not marks.get("stop_processed"):
                 v.append(("result_without_stop", w, "run returned a result but no StopEvent tick was seen"))
         else:
@@ -203,7 +238,7 @@ def execute(ex: Execution, family: str, mode: str) -> tuple[Any, list[Any]]:
 def programs(tier: str) -> list[Program]:
     q = tier == "quick"
     ps = []
-    fams = ["chain2", "fan(2,2)", "retry_delay", "wait_retry"] + ([] if q else ["chain3", "fan(3,2)"])
+    fams = ["chain2", "fan(2,2)", "retry_delay", "wait_retry", "spin"] + ([] if q else ["chain3", "fan(3,2)"])
     for fam in fams:
         for mode in ("timeout", "cancel", "cancel_resume", "cancel_resume_x2", "timeout_hang", "cancel_resume_timeout_hang", "timeout_busy"):
             if fam == "wait_retry" and mode not in ("timeout", "timeout_busy"):
@@ -211,6 +246,8 @@ def programs(tier: str) -> list[Program]:
             if mode == "timeout_busy" and fam not in ("chain2", "retry_delay", "wait_retry"):
                 continue
             if mode.endswith("_hang") and fam not in ("chain2", "fan(2,2)"):
+                continue
+            if fam == "spin" and mode not in ("cancel", "timeout"):
                 continue
             if mode == "cancel_resume_x2" and fam == "retry_delay":
                 continue  # (the delayed-retry finding is already shown by the single cancel)
